@@ -127,7 +127,9 @@ def p_Symbol(name, typename=BOOL):
 def p_Int(v):
     from .symint import SymInt
     if isinstance(v, SymInt):
-        return IT(v.e)
+        # integer constants of a CSP that the genuine z3 will solve must be concrete:
+        # fork over the value (stated range of the SymInt)
+        return IT(Z.IntVal(v.concretise()))
     return IT(Z.IntVal(int(v)))
 
 
@@ -238,6 +240,8 @@ def p_get_free_variables(f):
 class _Converter:
     def convert(self, f):
         if isinstance(f, F):
+            if isinstance(f.bv, int) and f.bv in (0, CTX.FULLI) and symex.ENG is not None and symex.ENG.notes.get("convert_constants"):
+                return Z.BoolVal(f.bv != 0)         # propositional constant inside an arithmetic CSP
             return f                # dual object: table + skeleton (see tt.F)
         if isinstance(f, (Cn, IT)):
             return f.e              # genuine z3 term
